@@ -5,7 +5,7 @@ SPEC = {
                  "text": 'Theorem reject_unchanged (coq/theories/ConfigLemmas.v) for all schemas, states, paths and values: an attribute / dotted-path / constructor-keyword assignment (scalar, map to a sub-configuration, list of maps) or a single-element append / replacement on a list of configurations that does not return normally yields exactly the configuration it was given -- values at every depth, default marks, dynamic fields and identities of nested configurations. The model follows core.py statement by statement (a map is loaded into a FRESH sub-configuration which replaces the old one only on success), is tied to the code by running the same histories on real Schema/Config objects and comparing the full state after every step inside Coq; a direct snapshot oracle re-checks the property on the implementation for every rejected step.',
                  "note": 'Trusted: Coq kernel + vm_compute; the correspondence harness; leaf validators abstract in the theorem. A load that fails half way (earlier keys applied) is outside the property and shown reachable by Example uncovered_may_change. Malformed documents / missing includes: the parse and include steps precede any write (Tree.v process, C18) -- checked on the implementation by the C18 includes stream. No axioms.',
                  "design_ref": "DESIGN.md section 6 C06"},
-    "streams": ['co06', 'includes'],
+    "streams": ['co06', 'includes', 'configfields'],
     # of the includes stream (C18) only the C06 clause: a load whose include cannot be resolved leaves the configuration unchanged
     "stream_filters": {"includes": r"changed the configuration"},
     "witnesses": [],
